@@ -48,15 +48,16 @@ def gen(rng, tier, escalate):
     nrand = 1500 * (4 if (tier == "thorough" or escalate) else 1)
     ws = [" ", " ", " ", "\t", " "]
     for t in range(nrand):
-        delims = rng.choice([["!"], ["!"], ["#"], ["!", "#"], ["%", "!"]])
+        delims = rng.choice([["!"], ["!"], ["#"], ["!", "#"], ["%", "!"], []])      # []: no line is a comment ('!' lines are commands)
+        dd = delims or ["!"]
         n = rng.randint(1, 60 if t % 3 == 0 else 14)
         lines = []
         for i in range(n):
             ind = rng.choice([0, 0, 1, 1, 2, 2, 3, 4, 5, 8, 12])
             pad = "".join(rng.choice(ws) for _ in range(ind))
             k = rng.choice(["cmd", "cmd", "cmd", "cmt", "cmt2", "blank", "empty", "delim_inside"])
-            body = {"cmd": "cmd%d a" % (i % 7), "cmt": delims[0] + " note", "cmt2": delims[-1], "blank": "", "empty": None,
-                    "delim_inside": "x" + delims[0]}[k]
+            body = {"cmd": "cmd%d a" % (i % 7), "cmt": dd[0] + " note", "cmt2": dd[-1], "blank": "", "empty": None,
+                    "delim_inside": "x" + dd[0]}[k]
             lines.append("" if body is None else pad + body)
         cases.append({"delims": delims, "lines": lines, "kind": "rnd"})
     return cases
